@@ -332,6 +332,9 @@ func (agent *Agent) Ping(opts PingOptions, cb PingCallback) (PendingOp, error) {
 				return nil, err
 			}
 		}
+		if c.PingShape != nil {
+			return &PingResult{ConfigRev: c.RevID, Services: c.PingShape()}, nil
+		}
 		return &PingResult{ConfigRev: c.RevID, Services: map[ServiceType][]EndpointPingResult{
 			MemdService: {{Endpoint: "127.0.0.1:11210", State: PingStateOK}},
 			MgmtService: {{Endpoint: c.MgmtEndpoint, State: PingStateOK}},
